@@ -189,6 +189,46 @@ def not_open_cases(chk):
             if msg:
                 chk.violation(f"at{gen}:not-open:{when}", msg,
                               {"kind": "input", "module": "pvmc.props.c16", "gen": gen, "when": when})
+        # send at every turn boundary while close() is in progress (connected, or waiting for a connection):
+        # whatever close() has not let through by the time it returns must not be held for a later open
+        for state in ("connected", "connecting"):
+            k = 0
+            while True:
+                w = Scenario({"gen": gen, "open": False})
+                w.spawn(w.sock.open_socket())
+                w.loop.settle()
+                if state == "connected":
+                    w.net.resolve(True)
+                    w.loop.settle()
+                w.spawn(w.sock.close())
+                turns = 0
+                while turns < k and w.loop.has_ready():
+                    w.loop.turn()
+                    turns += 1
+                if turns < k:
+                    break
+                rec = w.submit(w.fam(0), "I")
+                w.loop.run_until(w.loop.time() + 5)
+                n_before = len(w.net.conns)
+                w.net.auto = "accept"
+                w.net.resolve_all(False)
+                w.spawn(w.sock.open_socket())
+                w.loop.run_until(w.loop.time() + 40)
+                frames, _ = w.wire()
+                pairs, _u = sc.match_frames(w, frames)
+                late = [f for f, c in pairs if c is rec and f["cid"] >= n_before]
+                n += 1
+                chk.counters["executions"] += 1
+                msg = None
+                if late:
+                    msg = (f"send() {k} loop iterations into close() ({state}) ended with {rec['status']}; the message was held "
+                           f"and transmitted on connection {late[0]['cid']} after a later open_socket()")
+                elif rec["status"] not in ("notopen", "returned"):
+                    msg = f"send() {k} loop iterations into close() ({state}) ended with {rec['status']}"
+                if msg:
+                    chk.violation(f"at{gen}:not-open:during-close", msg,
+                                  {"kind": "input", "module": "pvmc.props.c16", "gen": gen, "when": f"during-close-{state}-{k}"})
+                k += 1
     return n
 
 
